@@ -22,10 +22,14 @@ RULE = ('(a) histories of calls on a real Context -- currentlabel assignment, la
         'enumerated exhaustively; streams with duplicate labels and with labels written after the end of a nested numbered environment are kept '
         'apart. Non-trivial = at least one reference and one label that names an object.')
 TRUSTED = ['modelled, not verified: the tokenizer/argument reader that turns \\label{..}/\\ref{..} into the string handed to castLabel/castRef '
-           '(C01/C05), the order in which the parser invokes refstepcounter / label / ref for the generated constructs (reproduced by the '
-           'generator as the event history and checked by the correspondence), Python dict order and str.strip (table of blanks checked '
-           'against str.isspace for every code point below 0x3100)',
-           'the printed number of an object is C08\'s subject: here it is an opaque string attached to the object']
+           '(C01/C05; active characters and control symbols in a label come back as source text, reproduced by read_name), which '
+           'numbering events and argument positions a generated construct corresponds to (the generator writes the document as numbering '
+           'events of Model/Counters.v plus labels / references; the Model derives the order refstepcounter / arguments / postParse and '
+           'the printed numbers; checked by the correspondence), Python dict order and str.strip (table of blanks checked against '
+           'str.isspace for every code point below 0x3100)',
+           'the printed number of an object is what Model/Counters.v (C08) computes for it (theorem C09_ref_number_is_c08_number); '
+           'documents with a bibliography are sent as plain event histories with generator-made numbers (bibliography entries are '
+           'not in C08\'s Model)']
 ASSUMPTIONS = ['labels are pairwise distinct for the property theorems (duplicate labels: correspondence only)',
                'documents: article class, labels written where LaTeX\'s group-local current object and plasTeX\'s most recently numbered '
                'object coincide, except in the stream after-nested (known finding C09-currentlabel-not-group-local)']
@@ -276,6 +280,87 @@ def doc_events(ast, secnumdepth=None):
                 raise ValueError(b)
     blocks(ast)
     return ev, st['o'], uids, wild
+
+
+def has_bib(ast):
+    return any(b[0] == 'bib' for b in ast)
+
+
+def uses_joint(case):
+    """documents without a bibliography go to the Model as numbering events of Model/Counters.v (C08) + labels / references
+    (Model/RefsDoc.v): the Model itself derives the order of refstepcounter / arguments / postParse and the printed numbers"""
+    return case['kind'] == 'doc' and not any(has_bib(d) for d in case['docs'])
+
+
+def doc_joint(ast):
+    """the document as the wire form of a list of RefsDoc.jevent"""
+    out = [[1, [5, S('thm'), [], [], 0], []]]          # \newtheorem{thm}{Theorem}
+
+    def inl(l, acc):
+        for x in l:
+            k = x[0]
+            if k == 'label':
+                acc.append([0, S(read_name(x[1]))])
+            elif k in ('ref', 'pageref'):
+                acc.append([1, x[2], 0, S(read_name(x[1]))])
+            elif k == 'grp':
+                acc.append([2])
+                inl(x[1], acc)
+                acc.append([3])
+        return acc
+
+    def flat(l):
+        for i in inl(l, []):
+            out.append([0, i])
+
+    def blocks(bs):
+        for b in bs:
+            k = b[0]
+            if k == 'sec':
+                out.append([1, [0, S(SEC_NAMES[b[1]]), 1 if b[2] else 0], [inl(b[3], [])]])
+                if len(b) > 5:
+                    flat(b[5])
+                if b[4] is not None:
+                    out.append([0, [0, S(read_name(b[4]))]])
+            elif k == 'par':
+                flat(b[1])
+            elif k == 'eq':
+                out.append([0, [2]])
+                out.append([1, [1], [[]]])
+                flat(b[1])
+                out.append([0, [3]])
+            elif k == 'eqn':
+                out.append([0, [2]])
+                out.append([1, [2, [1 if nonum else 0 for _, nonum in b[1]]], [inl(row, []) for row, _ in b[1]]])
+                out.append([0, [3]])
+            elif k == 'enum':
+                out.append([0, [2]])
+                out.append([1, [6, 1], []])
+                for it in b[1]:
+                    if it and it[0][0] == 'iterm':
+                        out.append([1, [8], [inl(it[0][1], [])]])
+                        blocks(it[1:])
+                    else:
+                        out.append([1, [8], [[]]])
+                        blocks(it)
+                out.append([1, [7], []])
+                out.append([0, [3]])
+            elif k == 'float':
+                out.append([0, [2]])
+                flat(b[2])
+                if b[3] is not None:
+                    out.append([1, [3, 0 if b[1] == 'fig' else 1], [inl(b[3], [])]])
+                flat(b[4])
+                out.append([0, [3]])
+            elif k == 'thm':
+                out.append([0, [2]])
+                out.append([1, [4, S('thm')], [inl(b[1], []) if b[1] is not None else []]])
+                blocks(b[2])
+                out.append([0, [3]])
+            else:
+                raise ValueError(b)
+    blocks(ast)
+    return out
 
 
 def inline_lists(ast):
@@ -685,6 +770,9 @@ def histories(case):
 def model_input(case):
     if case['kind'] == 'strip':
         return [2, [S(s) for s in case['strs']]]
+    if uses_joint(case):
+        depth = DEFAULT_SECNUMDEPTH if case.get('depth') is None else case['depth']
+        return [3, 0, depth, [doc_joint(d) for d in case['docs']]]
     return [0, [[wire_event(e) for e in h] for h in histories(case)]]
 
 
@@ -885,6 +973,8 @@ def wildcard(case, i, obs):
     """replace the printed numbers the generator does not predict (items of nested lists) by '*' on both sides"""
     if case['kind'] != 'doc':
         return obs
+    if uses_joint(case):
+        return obs          # the numbers come from the numbering Model of C08: nothing is left unpredicted
     wild = set(doc_events(case['docs'][i], case.get('depth'))[3])
     if not wild:
         return obs
@@ -982,6 +1072,9 @@ def judge(case, io, mo):
                     what='the Model\'s table of blanks differs from str.strip at %s' % [repr(case['strs'][i][0]) for i in bad[:5]])
     if mo == [-1] or not isinstance(mo, list):
         return dict(violation=False, key='C09:bad-wire', what='the Model rejected the history: %r' % (mo,))
+    if any(isinstance(m, list) and m[:1] == [-2] for m in mo):
+        return dict(violation=False, key='C09:numbering-model-stopped',
+                    what='Model/Counters.v (C08) reports Crash / Fuel on the numbering events of this document')
     if not isinstance(io, list) or io[:1] in (['raise'], ['hang']):
         hyp = all(m[6][0] for m in mo)
         return dict(violation=bool(hyp), key='C09:impl-raises', expected='no exception: every reference resolves or gets a placeholder',
